@@ -49,4 +49,48 @@ theorem classes_separate_components_false : ¬ ClassesSeparateComponents := by
   revert h
   decide +kernel
 
+/-! ## known finding 3: an odd number of equivalent stereo elements is never differentiated
+
+Inside the model: `__differentiation` looks at a group only `if not len(group) % 2`. Three components F–CH=CH–Cl with
+labels E, E, Z: the three labelled bonds share one grouping key, the group has 3 members, nothing is updated and the
+Z component keeps the classes of the E components — the writer then has to break the tie by atom number
+(probe on the real code: `known_findings/C01.json`, third entry). With an even number (E, Z) the classes are split
+(`Props/C01.lean`, example `exEZ false`). -/
+
+open ChythonModel.Model.ChiralFull ChythonModel.Model.ChiralMorgan in
+/-- a group of odd size leaves the state of a block unchanged, whatever the configurations -/
+theorem odd_group_is_skipped {α β : Type} (test sign : α → Except Stereo.PyErr Bool) (atomOf : α → Nat) (setKey : α → β)
+    (w : Weights) (st : BlockState β) (g : List α) (hg : g.length % 2 = 1) :
+    processBlock test sign atomOf setKey w st g = .ok st := by
+  unfold processBlock
+  simp [hg]
+
+def fAtom : HAtom := { z := 9, implH := some 0 }
+def clAtom : HAtom := { z := 17, implH := some 0 }
+def chAtom : HAtom := { z := 6, implH := some 1 }
+
+/-- F–CH=CH–Cl three times; the double bonds carry the labels `true`, `true`, `false` -/
+def threeAlkenes : MolView :=
+  ⟨[(1, fAtom), (2, chAtom), (3, chAtom), (4, clAtom), (5, fAtom), (6, chAtom), (7, chAtom), (8, clAtom),
+    (9, fAtom), (10, chAtom), (11, chAtom), (12, clAtom)],
+   [(1, [(2, ⟨1, none⟩)]), (2, [(1, ⟨1, none⟩), (3, ⟨2, some true⟩)]), (3, [(2, ⟨2, some true⟩), (4, ⟨1, none⟩)]),
+    (4, [(3, ⟨1, none⟩)]),
+    (5, [(6, ⟨1, none⟩)]), (6, [(5, ⟨1, none⟩), (7, ⟨2, some true⟩)]), (7, [(6, ⟨2, some true⟩), (8, ⟨1, none⟩)]),
+    (8, [(7, ⟨1, none⟩)]),
+    (9, [(10, ⟨1, none⟩)]), (10, [(9, ⟨1, none⟩), (11, ⟨2, some false⟩)]), (11, [(10, ⟨2, some false⟩), (12, ⟨1, none⟩)]),
+    (12, [(11, ⟨1, none⟩)])]⟩
+
+/-- FULL statement (false): equivalent stereo elements with different configurations end in different classes -/
+def ConfigurationsSeparated : Prop :=
+  ∀ r, ChiralFull.chiralFull toyHash (fun _ => true) dblT threeAlkenes [] = .ranks r → r.lookup 6 ≠ r.lookup 10
+
+theorem three_alkenes_one_class :
+    ChiralFull.chiralFull toyHash (fun _ => true) dblT threeAlkenes [] =
+      .ranks [(1, 1), (5, 1), (9, 1), (4, 2), (8, 2), (12, 2), (2, 3), (6, 3), (10, 3), (3, 4), (7, 4), (11, 4)] := by
+  decide +kernel
+
+theorem configurations_separated_false : ¬ ConfigurationsSeparated := by
+  intro hfull
+  exact hfull _ three_alkenes_one_class (by decide)
+
 end ChythonModel.Findings.C01
